@@ -1,21 +1,38 @@
 """C08 - the indexer reports only genuine grains and finds all of them on ideal data.
 
-specs: Indexer.tla (control state of find / scorethem / score_all_pairs on abstract instances: invariants +
+specs: Indexer.tla (control state of find / scorethem / score_all_pairs and the pass loop of index / do_index on abstract
+       instances: closest-angle and all-candidates hit lists, strict-then-loose passes, rings_to_use, n; invariants +
        liveness + completeness), TraceIndexer.tla (trace validation of recorded real runs).
-Mode C: a recording subclass of indexing.indexer logs every find(), every hit popped by scorethem with the
-       first score, the getind result and the observed outcome, and the ga / ubis state; TLC replays each event
-       against the specification's decision rule.  After the trace is accepted the final state is judged with
-       independent arithmetic: soundness (every reported UBI indexes > minpks supplied g-vectors within hkl_tol,
-       det > 0, cell within bounds, no two reported UBIs the same lattice) and, on noise-free simulated data,
-       completeness (every generating grain reported exactly once up to lattice symmetry).
+Mode C: a recording subclass of indexing.indexer logs every pair loop, every find(), every hit popped by scorethem with
+       ALL scores taken for it (and the matrices scored), the getind result (and the matrix it was asked about), the
+       observed outcome and the ga / ubis / scores state; TLC replays each event against the specification's decision
+       rule with the minimum of the pass in force taken from the harness's plan.
+Routes: indexer(...).score_all_pairs() (also n / rmulmax / rings_to_use, cosine_tol < 0, repeated with other minpks /
+       hkl_tol as index() does), indexing.index(colfile), indexing.do_index(cf, ...), indexer_from_colfile.
+Independent judgement (c08_lib.py: own reciprocal metric, brute-force hkl list with own absences, own hkl-error count;
+       nothing from unitcell.gethkls / uc.B / indexing.calc_drlv2):
+       * data: g = U B0 h for the harness's own B0 and hkl list; cells scaled from ~1 A to ~1e3 A (the model is
+         covariant under a change of length unit when ds_tol is scaled with it: instance family, not a spec constant)
+       * every logged score and getind mask is recomputed; every trial matrix must have the supplied cell exactly
+       * every find() hit list is compared with the harness's own angle matching (own hkl families of the two rings)
+       * final state: every reported UBI indexes > the minimum of its pass within the hkl_tol of its pass (own count on
+         the supplied g-vectors), det > 0, no two the same lattice, and its cell parameters (all six, as the metric
+         L^-1 G L^-T - I) differ from the supplied cell by no more than ONE least-squares step on peaks within hkl_tol
+         can move them: tol sqrt(N / lambda_min(sum h h^T)) (see c08_lib)
+       * noise-free data: every generating grain that has more than the minimum of some pass is reported exactly once up
+         to lattice symmetry (when ds_tol was scaled with the cell, the pair loop is not cut short by n and the permitted
+         rings hold two non-collinear reflections).
 """
-import os, sys, json, io, contextlib, time, logging
+import os, json, io, contextlib, time, logging, math, warnings
+from concurrent.futures import ThreadPoolExecutor
 import numpy as np
 import common
+import c08_lib as L
 
 PROP = "C08"
 DUP_ID = "C08-duplicate-orientation-noisy"
 
+# name: (cell, centring, dsmax at scale 1)
 CELLS = {
     "cubicF": ((4.05, 4.05, 4.05, 90, 90, 90), "F", 0.95),
     "cubicI": ((2.87, 2.87, 2.87, 90, 90, 90), "I", 1.25),
@@ -25,7 +42,23 @@ CELLS = {
     "orthorhombic": ((4.5, 5.2, 6.1, 90, 90, 90), "P", 0.55),
     "monoclinic": ((5.1, 5.2, 5.3, 90, 99, 90), "P", 0.5),
     "rhombohedral": ((4.76, 4.76, 13.0, 90, 90, 120), "R", 0.75),
+    # further members of the named families (other centrings / settings) ...
+    "tetragonalI": ((3.78, 3.78, 9.51, 90, 90, 90), "I", 0.8),
+    "orthorhombicC": ((4.5, 5.2, 6.1, 90, 90, 90), "C", 0.6),
+    "orthorhombicF": ((6.5, 7.2, 8.1, 90, 90, 90), "F", 0.6),
+    "orthorhombicA": ((4.1, 5.6, 6.3, 90, 90, 90), "A", 0.6),
+    "monoclinicC": ((7.1, 5.2, 5.3, 90, 103, 90), "C", 0.5),
+    "monoclinicB": ((6.2, 5.0, 5.6, 90, 90, 97), "B", 0.5),           # unique axis c
+    "rhombohedralP": ((5.0, 5.0, 5.0, 57, 57, 57), "P", 0.6),          # rhombohedral axes
+    "hexagonalLong": ((3.0, 3.0, 16.0, 90, 90, 120), "P", 0.7),
+    # ... and one outside the list of the quantifier ("any supported lattice" in the statement)
+    "triclinic": ((5.0, 5.7, 6.3, 82.0, 98.0, 105.0), "P", 0.5),
 }
+BASE = ["cubicF", "cubicI", "cubicP", "hexagonal", "tetragonal", "orthorhombic", "monoclinic", "rhombohedral"]
+MORE = ["tetragonalI", "orthorhombicC", "orthorhombicF", "orthorhombicA", "monoclinicC", "monoclinicB", "rhombohedralP",
+        "hexagonalLong", "triclinic"]
+OUTSIDE_QUANTIFIER = {"triclinic"}
+SCALES = [1.0, 0.25, 10.0, 250.0]          # cubic I: 0.72 A ... cubic F: 1012 A, rhombohedral c: 3250 A
 
 
 def random_rotation(rng):
@@ -37,7 +70,10 @@ def random_rotation(rng):
                      [2 * (b * d - a * c), 2 * (c * d + a * b), a * a - b * b - c * c + d * d]])
 
 
+# ------------------------------------------------------------------------------------------------ recorder
 def make_recorder(indexing):
+    Base = indexing.indexer            # bound now: the routes below swap indexing.indexer for the recorder
+
     class LogList(list):
         def __init__(self, items, owner):
             list.__init__(self, items)
@@ -46,96 +82,133 @@ def make_recorder(indexing):
         def pop(self, *a):
             self.owner._flush()
             item = list.pop(self, *a)
-            self.owner._cur = {"t": "pop", "i": int(item[1]) + 1, "j": int(item[2]) + 1, "npk": None, "nind": 0,
-                               "nun": 0, "ind": [], "_nub": len(self.owner.ubis), "_getind": False}
+            self.owner._cur = ({"t": "pop", "i": int(item[1]) + 1, "j": int(item[2]) + 1, "npk": None, "sc": [], "score": 0,
+                                "nind": 0, "nun": 0, "ind": []},
+                               {"nub": len(self.owner.ubis), "getind": False, "ubis": [], "tols": [], "gi_ubi": None,
+                                "gi_mask": None})
             return item
 
-    class RecIndexer(indexing.indexer):
+    class RecIndexer(Base):
+        _cfg = {}                # switches for instances that index() / do_index() create themselves
+
+        def __init__(self, *a, **k):
+            Base.__init__(self, *a, **k)
+            self.rec_init()
+
         def rec_init(self):
             self._rec = []
+            self._aux = []
             self._cur = None
+            self._npass = 0
+
+        def _emit(self, ev, aux=None):
+            self._rec.append(ev)
+            self._aux.append(aux)
+
+        def rec_pass(self, k):
+            self._flush()
+            self._emit({"t": "pass", "k": int(k)})
+
+        def score_all_pairs(self, n=None, rmulmax=None, rings_to_use=None):
+            self._flush()
+            if type(self)._cfg.get("auto_pass"):
+                self._npass += 1
+                self._emit({"t": "pass", "k": self._npass})
+            self._emit({"t": "sap", "n": -1 if n is None else int(n), "pairs": [], "unordered": False},
+                       {"rmulmax": rmulmax, "rings_to_use": None if rings_to_use is None else [int(r) for r in rings_to_use]})
+            return Base.score_all_pairs(self, n=n, rmulmax=rmulmax, rings_to_use=rings_to_use)
 
         def find(self):
             before = self.hits
-            indexing.indexer.find(self)
+            Base.find(self)
             early = self.hits is before
             hl = [] if early else [[int(i) + 1, int(j) + 1] for (_, i, j) in self.hits]
-            self._rec.append({"t": "find", "r1": int(self.ring_1), "r2": int(self.ring_2), "early": bool(early), "hits": hl})
-            if not early:
-                self.hits = LogList(self.hits, self)
-            elif not isinstance(self.hits, LogList):
-                self.hits = LogList(self.hits, self)
+            self._emit({"t": "find", "r1": int(self.ring_1), "r2": int(self.ring_2), "early": bool(early), "hits": hl},
+                       {"minpks": float(self.minpks), "tol": float(self.hkl_tol), "cosine_tol": float(self.cosine_tol)})
+            if not isinstance(self.hits, LogList):
+                self.hits = LogList(self.hits if self.hits is not None else [], self)
 
         def scorethem(self, fitb4=False):
             self._cur = None
-            indexing.indexer.scorethem(self, fitb4)
+            Base.scorethem(self, fitb4)
             self._flush()
-            self._rec.append({"t": "end", "left": len(self.hits) if self.hits is not None else 0})
+            self._emit({"t": "end", "left": len(self.hits) if self.hits is not None else 0})
 
         def score(self, UBI, tol=None):
-            n = indexing.indexer.score(self, UBI, tol)
-            if self._cur is not None and self._cur["npk"] is None:
-                self._cur["npk"] = int(n)
+            n = Base.score(self, UBI, tol)
+            if self._cur is not None:
+                c, a = self._cur
+                if c["npk"] is None:
+                    c["npk"] = int(n)
+                c["sc"].append(int(n))
+                a["ubis"].append(np.array(UBI, float))
+                a["tols"].append(None if tol is None else float(tol))
             return n
 
         def getind(self, UBI, **kw):
-            ind = indexing.indexer.getind(self, UBI, **kw)
+            ind = Base.getind(self, UBI, **kw)
             if self._cur is not None:
-                self._cur["_getind"] = True
-                self._cur["nind"] = int(ind.sum())
-                self._cur["nun"] = int((self.ga[ind] == -1).sum())
-                self._cur["ind"] = (np.nonzero(ind)[0] + 1).tolist()
+                c, a = self._cur
+                a["getind"] = True
+                a["gi_ubi"] = np.array(UBI, float)
+                a["gi_mask"] = np.array(ind, bool)
+                c["nind"] = int(ind.sum())
+                c["nun"] = int((self.ga[ind] == -1).sum())
+                c["ind"] = (np.nonzero(ind)[0] + 1).tolist()
             return ind
 
         def _flush(self):
-            c = self._cur
-            if c is None:
+            if self._cur is None:
                 return
+            c, a = self._cur
             if c["npk"] is None:
                 kind = "skip"
                 c["npk"] = -1
-            elif len(self.ubis) > c["_nub"]:
+            elif len(self.ubis) > a["nub"]:
                 kind = "accept"
-            elif c["_getind"]:
+                c["score"] = int(self.scores[-1]) if len(self.scores) else -1
+                a["k"] = len(self.ubis) - 1
+            elif a["getind"]:
                 kind = "reject"
             else:
                 kind = "low"
             c["kind"] = kind
             if kind != "accept":
                 c["ind"] = []
-            self._rec.append({k: v for k, v in c.items() if not k.startswith("_")})
+            self._emit(c, a)
             self._cur = None
 
     return RecIndexer
 
 
-def simulate(rng, unitcell_mod, cellname, ngrains, noise=0.0, nspurious=0, dropout=False):
+# ------------------------------------------------------------------------------------------------ data
+def scaled_cell(cellname, scale):
     cell, cen, dsmax = CELLS[cellname]
-    uc = unitcell_mod.unitcell(cell, cen)
-    hkls = np.array([h for (_, h) in uc.gethkls(dsmax)], float)
-    ubis = []
-    gv = []
-    owner = []
+    return tuple(float(x) * scale for x in cell[:3]) + tuple(float(x) for x in cell[3:]), cen, dsmax / scale
+
+
+def simulate(rng, cellname, scale, ngrains, noise=0.0, nspurious=0, dropout=False, sep_tol=0.05, sep_frac=0.2, dscut=1.0):
+    """own forward model: g = U B0 h over the brute-force hkl list; noise and ds are in units of 1/scale"""
+    cell, cen, dsmax = scaled_cell(cellname, scale)
+    dsmax *= dscut
+    hkls, _ = L.brute_hkls(cell, cen, dsmax)
+    hkls = hkls.astype(float)
+    B0 = L.recip_B(cell)
+    ubis, gv, owner = [], [], []
     for g in range(ngrains):
         for _ in range(200):
-            U = random_rotation(rng)
-            ub = U @ uc.B
+            ub = random_rotation(rng) @ B0
             ubi = np.linalg.inv(ub)
-            # well separated: not within 3 degrees of a symmetry equivalent of an earlier grain (checked via shared peaks)
-            ok = True
-            gg = (ub @ hkls.T).T
-            for u2 in ubis:
-                h2 = gg @ u2.T
-                if (np.abs(h2 - np.round(h2)).max(axis=1) < 0.05).mean() > 0.2:
-                    ok = False
-            if ok:
+            gg = hkls @ ub.T
+            # well separated: shares at most sep_frac of its reflections (within sep_tol in hkl) with an earlier grain
+            if all((L.hkl_err2(u2, gg) < sep_tol ** 2).mean() <= sep_frac for u2 in ubis):
                 break
         ubis.append(ubi)
         if dropout:                      # grain g loses 3*g + 1 of its reflections: all grains have different counts
             keepm = np.ones(len(gg), bool)
             keepm[rng.choice(len(gg), size=3 * g + 1, replace=False)] = False
             gg = gg[keepm]
-        gv.append(gg + rng.normal(size=gg.shape) * noise)
+        gv.append(gg + rng.normal(size=gg.shape) * noise / scale)
         owner += [g] * len(gg)
     gv = np.concatenate(gv)
     if nspurious:
@@ -144,7 +217,8 @@ def simulate(rng, unitcell_mod, cellname, ngrains, noise=0.0, nspurious=0, dropo
         gv = np.concatenate([gv, sp])
         owner += [-1] * nspurious
     perm = rng.permutation(len(gv))
-    return uc, ubis, np.ascontiguousarray(gv[perm]), np.array(owner)[perm], len(hkls)
+    return {"cell": cell, "cen": cen, "dsmax": dsmax, "ubis": ubis, "gv": np.ascontiguousarray(gv[perm]),
+            "owner": np.array(owner)[perm], "nper": len(hkls)}
 
 
 def same_lattice(ubi1, ubi2, tol=0.05):
@@ -154,199 +228,663 @@ def same_lattice(ubi1, ubi2, tol=0.05):
     return bool(np.abs(M - Mi).max() < tol and abs(abs(np.linalg.det(Mi)) - 1) < 1e-6)
 
 
-def run_case(chk, indexing, unitcell_mod, RecIndexer, rng, cellname, ngrains, noise, nspur, cid, tier, pars=None, passes=1,
-             boundary=False):
-    """passes = 2: a second score_all_pairs on the same indexer (the strict-then-loose strategy of indexing.index): grains
-    found in the first pass must not be found again.  boundary: grains with different peak counts and minpks set to
-    exactly the count of the poorest grain: that grain indexes minpks peaks, which is NOT more than minpks."""
-    uc, ubis, gv, owner, nper = simulate(rng, unitcell_mod, cellname, ngrains, noise, nspur, dropout=boundary)
-    p = dict(cosine_tol=0.002 if noise == 0 else 0.01, hkl_tol=0.02 if noise == 0 else 0.05, ds_tol=0.004 if noise == 0 else 0.01,
-             minpks=max(6, int(0.4 * nper)), uniqueness=0.5, max_grains=[100, 100, 2][int(rng.integers(0, 3))] if noise else 100)
-    if pars:
-        p.update(pars)
+def make_colfile(ctx, sim, wavelength):
+    """a columnfile carrying gx gy gz ds omega and the cell: what index() / do_index() / indexer_from_colfile take.
+    omega = k mod 180: the indexer only counts the distinct whole degrees (omega_fullrange)"""
+    gv = sim["gv"]
+    n = len(gv)
+    cf = ctx["columnfile"].colfile_from_dict({"gx": gv[:, 0].copy(), "gy": gv[:, 1].copy(), "gz": gv[:, 2].copy(),
+                                              "ds": np.linalg.norm(gv, axis=1), "omega": (np.arange(n) % 180).astype(float)})
+    c = sim["cell"]
+    p = ctx["parameters"].parameters(cell__a=c[0], cell__b=c[1], cell__c=c[2], cell_alpha=c[3], cell_beta=c[4], cell_gamma=c[5],
+                                     wavelength=wavelength)
+    p.set("cell_lattice_[P,A,B,C,I,F,R]", sim["cen"])
+    cf.parameters = p
+    return cf
+
+
+# ------------------------------------------------------------------------------------------------ one run
+def default_pars(sim, noise, scale, rng):
+    nper = sim["nper"]
+    return dict(cosine_tol=0.002 if noise == 0 else 0.01, hkl_tol=0.02 if noise == 0 else 0.05,
+                ds_tol=(0.004 if noise == 0 else 0.01) / scale, minpks=max(6, int(0.4 * nper)), uniqueness=0.5,
+                max_grains=[100, 100, 2][int(rng.integers(0, 3))] if noise else 100)
+
+
+def run_case(chk, ctx, rng, sp, cid):
+    """sp: cell, scale, ng, noise, nspur, route (sap | index | do_index | api), pars (overrides), passes = list of
+    (minpks or None, hkl_tol or None) settings applied one after the other on the same indexer, boundary, dropout,
+    sap = dict(n, rmulmax, rings_to_use), complete (None = decide from the data), wavelength, dscut"""
+    indexing = ctx["indexing"]
+    RecIndexer = ctx["RecIndexer"]
+    stats = ctx["stats"]
+    name, scale, ng = sp["cell"], sp.get("scale", 1.0), sp["ng"]
+    noise, nspur = sp.get("noise", 0.0), sp.get("nspur", 0)
+    boundary = bool(sp.get("boundary"))
+    route = sp.get("route", "sap")
+    uniq = (sp.get("pars") or {}).get("uniqueness", 0.5)
+    sim = simulate(rng, name, scale, ng, noise, nspur, dropout=boundary or bool(sp.get("dropout")),
+                   sep_tol=sp.get("sep_tol", 0.05), sep_frac=min(0.2, (1 - uniq) / 2), dscut=sp.get("dscut", 1.0))
+    cell, cen, gv, owner = sim["cell"], sim["cen"], sim["gv"], sim["owner"]
+    p = default_pars(sim, noise, scale, rng)
+    p.update(sp.get("pars") or {})
+    counts = [int((owner == g).sum()) for g in range(ng)]
     nmin_grain = -1
     if boundary:
-        counts = [int((owner == g).sum()) for g in range(ngrains)]
         nmin_grain = int(np.argmin(counts))
         p["minpks"] = counts[nmin_grain]
-    with contextlib.redirect_stdout(io.StringIO()), contextlib.redirect_stderr(io.StringIO()):
-        ind = RecIndexer(unitcell=uc, gv=gv, wavelength=0.3, **p)
-        ind.rec_init()
-        ga0 = ind.ga.copy()
-        err = None
+    if sp.get("minpks_below_poorest"):
+        p["minpks"] = min(counts) - 1
+    wavelength = sp.get("wavelength", 0.3)
+    passes_in = sp.get("passes") or [(None, None)]
+    if sp.get("pass_fracs"):            # strict then loose: minimum as a fraction of the reflections per grain
+        passes_in = [(max(3, int(f * sim["nper"])), t) for f, t in sp["pass_fracs"]]
+    plan = [{"minpks": p["minpks"] if m is None else m, "tol": p["hkl_tol"] if t is None else t} for (m, t) in passes_in]
+    sap = dict(sp.get("sap") or {})
+    meta = {"case": cid, "spec": sp, "cell": name, "scale": scale, "ngrains": ng, "noise": noise, "nspurious": nspur, "pars": p,
+            "route": route, "seed": common.seed(), "boundary": boundary}
+    err = None
+    ind = None
+    gv_supplied = gv
+    dox = None
+    with contextlib.redirect_stdout(io.StringIO()), contextlib.redirect_stderr(io.StringIO()), warnings.catch_warnings():
+        warnings.simplefilter("ignore")
+        RecIndexer._cfg = {}
         try:
-            for _ in range(passes):
-                ind.score_all_pairs()
+            if route in ("sap", "api"):
+                if route == "sap":
+                    uc = ctx["unitcell"].unitcell(cell, cen)
+                    ind = RecIndexer(unitcell=uc, gv=gv, wavelength=wavelength, **p)
+                else:
+                    old = indexing.indexer
+                    indexing.indexer = RecIndexer
+                    try:
+                        ind = indexing.indexer_from_colfile(make_colfile(ctx, sim, wavelength), **p)
+                    finally:
+                        indexing.indexer = old
+                for k, ps in enumerate(plan):
+                    ind.minpks, ind.hkl_tol = ps["minpks"], ps["tol"]
+                    ind.rec_pass(k + 1)
+                    for _ in range(sp.get("repeat", 1)):
+                        ind.score_all_pairs(**sap)
+            elif route == "index":
+                RecIndexer._cfg = {"auto_pass": True}
+                old = indexing.indexer
+                indexing.indexer = RecIndexer
+                try:
+                    ind = indexing.index(make_colfile(ctx, sim, wavelength), npk_tol=[(ps["minpks"], ps["tol"]) for ps in plan],
+                                         cosine_tol=p["cosine_tol"], ds_tol=p["ds_tol"], max_grains=p["max_grains"],
+                                         rmulmax=sap.get("rmulmax"), rings_to_use=sap.get("rings_to_use"), maxpairs=sap.get("n"))
+                finally:
+                    indexing.indexer = old
+                p["uniqueness"] = 0.5                       # index() leaves the constructor's default
+            elif route == "do_index":
+                dox = sp["do_index"]
+                # ring numbers as a user reads them off assigntorings: d* order of the cell's rings
+                probe = ctx['Base'](unitcell=ctx["unitcell"].unitcell(cell, cen), gv=gv, ds_tol=p["ds_tol"])
+                probe.assigntorings()
+                withpk = [r for r in range(len(probe.unitcell.ringds)) if (probe.ra == r).sum() > 0]
+                foridx = withpk if dox.get("foridx") is None else [withpk[i] for i in dox["foridx"] if i < len(withpk)]
+                forgen = [foridx[i] for i in dox["forgen"] if i < len(foridx)]
+                dox = dict(dox, foridx_rings=foridx, forgen_rings=forgen)
+                old = indexing.indexer
+                indexing.indexer = RecIndexer
+                nthr = indexing.cImageD11.cimaged11_omp_get_max_threads()
+                try:
+                    grains, ind = indexing.do_index(make_colfile(ctx, sim, wavelength), dstol=p["ds_tol"], hkl_tols=tuple(dox["hkl_tols"]),
+                                                    fracs=tuple(dox["fracs"]), cosine_tol=p["cosine_tol"], max_grains=p["max_grains"],
+                                                    forgen=tuple(forgen), foridx=tuple(foridx))
+                finally:
+                    indexing.indexer = old
+                if indexing.cImageD11.cimaged11_omp_get_max_threads() != nthr:
+                    chk.violation("do_index left the thread count changed", meta)
+                if len(grains) != len(ind.ubis) or any(not np.array_equal(g.ubi, u) for g, u in zip(grains, ind.ubis)):
+                    chk.violation("do_index: returned grains are not the indexer's orientations", meta)
+                p["uniqueness"] = 0.5
+            else:
+                raise common.MachineryError("unknown route %s" % route)
+        except common.MachineryError:
+            raise
         except Exception as e:                       # noqa
             err = repr(e)
-    meta = {"passes": passes, "boundary": bool(boundary), "cell": cellname, "ngrains": ngrains, "noise": noise, "nspurious": nspur, "pars": p, "seed": common.seed(), "case": cid}
     if err:
-        chk.violation("indexer raised %s" % err, meta)
+        chk.violation("indexer raised %s (%s, route %s)" % (err, name, route), meta)
         return None, meta
-    rec = {"id": cid, "NP": len(gv), "minpks": int(p["minpks"]), "unum": int(round(p["uniqueness"] * 1000)), "uden": 1000,
-           "maxgrains": int(p["max_grains"]), "ra": [int(x) for x in ind.ra], "ga0": [int(x) for x in ga0], "nubis0": 0,
-           "ev": ind._rec, "gaF": [int(x) for x in ind.ga], "nubisF": len(ind.ubis)}
-    # ---- final state, independent arithmetic
-    tol2 = p["hkl_tol"] ** 2
+    if not isinstance(ind, RecIndexer):
+        chk.violation("route %s did not build its indexer from indexing.indexer" % route, meta)
+        return None, meta
+    gvi = np.asarray(ind.gv, float)                       # the g-vectors this indexer holds (do_index: those on foridx rings)
+    if route == "do_index":
+        have = set(map(tuple, gv_supplied.tolist()))
+        if any(tuple(r) not in have for r in gvi.tolist()):
+            chk.violation("do_index: the indexer holds g-vectors that were not supplied", meta)
+            return None, meta
+    elif gvi.shape != gv_supplied.shape or not np.array_equal(gvi, gv_supplied):
+        chk.violation("the indexer's g-vectors are not the supplied ones (route %s)" % route, meta)
+        return None, meta
+    ra = np.asarray(ind.ra)
+    ev, aux = list(ind._rec), list(ind._aux)
+    ds_tol = float(p["ds_tol"])
+    # ---- the harness's own ring families (multiplicities, allowed angles), for the code's ring numbering
+    ringds = np.asarray(ind.unitcell.ringds, float)
+    hk_own, ds_own = L.brute_hkls(cell, cen, float(np.linalg.norm(gvi, axis=1).max()) + ds_tol)
+    members, clean = L.ring_families(hk_own, ds_own, ringds, ds_tol)
+    # multiplicity of a ring that is not clean (close rings merged by ds_tol): the harness cannot know how the rings were
+    # merged, so the code's own family size stands in (only used by the rmulmax filter and do_index's expected count)
+    mult = [len(m) if c else len(ind.unitcell.ringhkls[ind.unitcell.ringds[r]]) for r, (m, c) in enumerate(zip(members, clean))]
+    separated = all(clean)
+    # ---- do_index: the pass / pair-loop structure comes from its arguments (it has no score_all_pairs call to hook)
+    if route == "do_index":
+        rings_with = set(int(r) for r in set(ra.tolist()) if r >= 0)
+        gen = [r for r in dox["forgen_rings"] if r in rings_with and r in dox["foridx_rings"]]
+        # the indexer used for the search holds the peaks on foridx rings only: the omega range is counted on those
+        rowof = {tuple(r): k for k, r in enumerate(gv_supplied.tolist())}
+        omega_range = len(set((rowof[tuple(r)] % 180) for r in gvi.tolist()))
+        n_expected = sum(int(mult[r] * omega_range / 180.0) for r in dox["foridx_rings"] if r in rings_with)
+        plan = [{"minpks": int(math.floor(n_expected * f)), "tol": float(t), "_exact": n_expected * f}
+                for f in dox["fracs"] for t in dox["hkl_tols"]]
+        npairs = len(gen) * (len(gen) + 1) // 2
+        nfind = sum(1 for e in ev if e["t"] == "find")
+        if nfind != npairs * len(plan):
+            chk.violation("do_index: %d find calls for %d passes over %d ring pairs" % (nfind, len(plan), npairs), meta)
+            return None, meta
+        ev2, aux2, seen = [], [], 0
+        allowed = [[a, b] for a in gen for b in gen]
+        for e, a in zip(ev, aux):
+            if e["t"] == "find":
+                if npairs and seen % npairs == 0:
+                    ev2 += [{"t": "pass", "k": seen // npairs + 1}, {"t": "sap", "n": -1, "pairs": allowed, "unordered": True}]
+                    aux2 += [None, {"filled": True}]
+                seen += 1
+            ev2.append(e)
+            aux2.append(a)
+        ev, aux = ev2, aux2
+        meta["do_index"] = {"forgen": gen, "foridx": dox["foridx_rings"], "n_expected": n_expected, "omega_range": omega_range}
+    # ---- the ring pairs each score_all_pairs call may / must try
+    for e, a in zip(ev, aux):
+        if e["t"] == "sap" and not (a or {}).get("filled"):
+            rings = sorted(int(r) for r in set(ra.tolist()) if r >= 0)
+            if a["rings_to_use"] is not None:
+                rings = [r for r in a["rings_to_use"] if r in rings]
+            if a["rmulmax"] is not None:
+                rings = [r for r in rings if mult[r] <= a["rmulmax"]]
+            e["pairs"] = [[r1, r2] for r1 in rings for r2 in rings]
+    rec = {"id": cid, "NP": len(gvi), "unum": int(round(p["uniqueness"] * 1000)), "uden": 1000, "maxgrains": int(p["max_grains"]),
+           "mode": "closest" if p["cosine_tol"] > 0 else "all", "passes": [{"minpks": int(ps["minpks"])} for ps in plan],
+           "ra": [int(x) for x in ra], "ga0": [-1] * len(gvi), "nubis0": 0, "scores0": [], "ev": ev,
+           "gaF": [int(x) for x in ind.ga], "nubisF": len(ind.ubis), "scoresF": [int(s) for s in ind.scores]}
+    meta["plan"] = [{k: v for k, v in ps.items() if not k.startswith("_")} for ps in plan]
+    # ---- independent judgement of the logged numerics, the hit lists and the final state
+    cond = L.cell_cond(cell)
+    onring = ra >= 0
+    ga = np.full(len(gvi), -1)
+    nub = 0
+    k_pass = 0
+    acc_pass = []                                        # pass of each accepted grain
+    bound_of = []                                        # what one refinement step may have done to its cell
+    nviol0 = len(chk.violations)
+
+    def bad(what, extra=None):
+        if len(chk.violations) - nviol0 < 6:
+            chk.violation(what + " [%s x%g, route %s]" % (name, scale, route), dict(meta, **(extra or {})))
+    for e, a in zip(ev, aux):
+        if e["t"] == "pass":
+            k_pass = e["k"] - 1
+        elif e["t"] == "find":
+            ps = plan[min(k_pass, len(plan) - 1)]
+            want = ps.get("_exact", ps["minpks"])
+            if abs(a["tol"] - ps["tol"]) > 1e-12 or abs(a["minpks"] - want) > 1e-9 * max(1.0, abs(want)):
+                bad("pass %d ran with minpks %r hkl_tol %r, requested %r %r" % (k_pass + 1, a["minpks"], a["tol"], want, ps["tol"]))
+            if abs(a["cosine_tol"] - p["cosine_tol"]) > 1e-15:
+                bad("find ran with cosine_tol %r, requested %r" % (a["cosine_tol"], p["cosine_tol"]))
+            if not e["early"]:
+                stats["find_events"] += 1
+            if not e["early"] and clean[e["r1"]] and clean[e["r2"]]:
+                i1 = np.nonzero((ra == e["r1"]) & (ga == -1))[0]
+                i2 = np.nonzero((ra == e["r2"]) & (ga == -1))[0]
+                coses = L.ring_cosines(members[e["r1"]], members[e["r2"]], cell)
+                must, may = L.expected_hits(gvi, i1, i2, coses, p["cosine_tol"])
+                hits = [(h[0] - 1, h[1] - 1) for h in e["hits"]]
+                stats["find_judged"] += 1
+                stats["hits_judged"] += len(hits)
+                taken = [h for h in hits if ga[h[0]] != -1 or ga[h[1]] != -1]
+                if taken:
+                    bad("find(%d, %d) offers %d hits with a peak that already belongs to a grain (first %s)" % (e["r1"], e["r2"], len(taken), taken[:1]))
+                    continue
+                extra_h = [h for h in hits if h not in may]
+                if p["cosine_tol"] > 0:
+                    missing = sorted(must - set(h[0] for h in hits))
+                else:
+                    missing = sorted(must - set(hits))
+                if extra_h or missing:
+                    bad("find(%d, %d): %d hits no allowed angle explains (first %s), %d expected hits missing (first %s)" % (
+                        e["r1"], e["r2"], len(extra_h), extra_h[:1], len(missing), missing[:1]))
+        elif e["t"] == "pop" and e["kind"] != "skip":
+            ps = plan[min(k_pass, len(plan) - 1)]
+            tol = ps["tol"]
+            for U, tl, n in zip(a["ubis"], a["tols"], e["sc"]):
+                if tl is not None and abs(tl - tol) > 1e-12:
+                    bad("score taken at hkl_tol %r in a pass that requested %r" % (tl, tol))
+                lo, hi = L.count_range(L.hkl_err2(U, gvi), tol)
+                stats["scores_judged"] += 1
+                if not lo <= n <= hi:
+                    bad("score %d for a trial orientation that indexes %d..%d of the g-vectors within hkl_tol %g" % (n, lo, hi, tol),
+                        {"ubi": U.tolist()})
+                d = L.cell_distortion(U, cell)
+                if d > 1e-8:
+                    bad("a trial orientation does not have the supplied cell: %s (distortion %.3g)" % (
+                        ["%.6g" % x for x in L.cellpars(U)], d), {"ubi": U.tolist()})
+            if len(e["sc"]) > 1:
+                stats["reorient_branch"] += 1
+            if a["getind"]:
+                mlo, mhi = L.mask_range(L.hkl_err2(a["gi_ubi"], gvi), tol)
+                m = a["gi_mask"]
+                stats["getind_judged"] += 1
+                if len(m) != len(gvi) or (mlo & ~m).any() or (m & ~mhi).any():
+                    bad("getind: %d peaks reported, own count %d..%d within hkl_tol %g" % (int(m.sum()), int(mlo.sum()), int(mhi.sum()), tol),
+                        {"ubi": a["gi_ubi"].tolist()})
+            if e["kind"] == "accept":
+                # the peaks handed to the new grain are those its REPORTED orientation indexes (Idx of the specification)
+                if a.get("k") is not None and a["k"] < len(ind.ubis) and a["getind"]:
+                    mlo, mhi = L.mask_range(L.hkl_err2(ind.ubis[a["k"]], gvi), tol)
+                    m = np.zeros(len(gvi), bool)
+                    m[np.array(e["ind"], int) - 1] = True
+                    stats["grain_peaks_judged"] += 1
+                    if (mlo & ~m).any() or (m & ~mhi).any():
+                        bad("the peaks assigned to new grain %d (%d) are not those its reported orientation indexes within hkl_tol %g (%d..%d)" % (
+                            a["k"], int(m.sum()), tol, int(mlo.sum()), int(mhi.sum())), {"ubi": ind.ubis[a["k"]].tolist()})
+                ga[np.array(e["ind"], int) - 1] = nub + 1
+                nub += 1
+                acc_pass.append(min(k_pass, len(plan) - 1))
+                cands = [U for U, n in zip(a["ubis"], e["sc"]) if n == e["score"]] or a["ubis"]
+                bound_of.append(max(L.refine_bound(U, gvi[onring], tol)[1] for U in cands))
+                if k_pass > 0:
+                    stats["accepted_in_later_pass"] += 1
+    tolmax = max(ps["tol"] for ps in plan)
     for k, u in enumerate(ind.ubis):
-        n = int((indexing.calc_drlv2(u, gv) < tol2).sum())
-        if n <= p["minpks"]:
-            chk.violation("reported orientation %d indexes %d of the supplied g-vectors within hkl_tol, minpks = %d" % (k, n, p["minpks"]),
-                          dict(meta, ubi=u.tolist()))
+        if k >= len(acc_pass):
+            break                                        # TraceIndexer reports the mismatch
+        ps = plan[acc_pass[k]]
+        lo, hi = L.count_range(L.hkl_err2(u, gv_supplied), ps["tol"])
+        need = ps.get("_exact", ps["minpks"])
+        if not hi > need:
+            bad("reported orientation %d indexes %d of the supplied g-vectors within hkl_tol %g, minpks = %g" % (k, hi, ps["tol"], need),
+                {"ubi": u.tolist()})
         if np.linalg.det(u) <= 0:
-            chk.violation("reported orientation %d is left handed" % k, dict(meta, ubi=u.tolist()))
-        cp = indexing.ubitocellpars(u)
-        ref = uc.lattice_parameters
-        # any lattice-equivalent setting of the cell is acceptable: compare via the true grains when available, else volume
-        vol = abs(np.linalg.det(u))
-        vref = abs(np.linalg.det(ubis[0]))
-        if abs(vol - vref) > 0.1 * vref:
-            chk.violation("reported orientation %d has cell volume %.3f, supplied cell %.3f" % (k, vol, vref), dict(meta, ubi=u.tolist()))
-    for a in range(len(ind.ubis)):
-        for b in range(a + 1, len(ind.ubis)):
-            if same_lattice(ind.ubis[a], ind.ubis[b]):
+            bad("reported orientation %d is left handed" % k, {"ubi": u.tolist()})
+        d = L.cell_distortion(u, cell)
+        allowed = L.distortion_allowed(bound_of[k] * 1.05, cond) + 1e-9
+        stats["cell_judged"] += 1
+        if math.isfinite(allowed):
+            stats["cell_bound_finite"] += 1
+            stats["cell_ratio_max"] = max(stats["cell_ratio_max"], d / allowed)
+            stats["cell_dist_max"] = max(stats["cell_dist_max"], d)
+        if d > allowed:
+            bad("reported orientation %d has cell %s, supplied %s: distortion %.3g, one refinement step within hkl_tol %g allows %.3g" % (
+                k, ["%.6g" % x for x in L.cellpars(u)], ["%.6g" % x for x in cell], d, ps["tol"], allowed), {"ubi": u.tolist()})
+    for a_ in range(len(ind.ubis)):
+        for b_ in range(a_ + 1, len(ind.ubis)):
+            if same_lattice(ind.ubis[a_], ind.ubis[b_]):
                 # judged after trace validation (see DUP_ID): the recorded finding explains it only for noisy data
-                meta.setdefault("_dups", []).append((a, b, [ind.ubis[a].tolist(), ind.ubis[b].tolist()]))
-    if noise == 0 and nspur == 0 and p["max_grains"] >= ngrains:
-        for g, t in enumerate(ubis):
+                tl = max(plan[acc_pass[x]]["tol"] if x < len(acc_pass) else tolmax for x in (a_, b_))
+                meta.setdefault("_dups", []).append((a_, b_, [ind.ubis[a_].tolist(), ind.ubis[b_].tolist()], tl))
+    # ---- completeness on noise-free data
+    complete = sp.get("complete")
+    if complete is None:
+        # rings_to_use / rmulmax / forgen: every grain must own a pair of non-collinear peaks on the permitted rings
+        loops = [e["pairs"] for e in ev if e["t"] == "sap"]
+        gen_ok = bool(loops) and all(L.noncollinear_pair(members, sorted(set(r for pr in pairs for r in pr))) for pairs in loops)
+        complete = noise == 0 and nspur == 0 and p["max_grains"] >= ng and sap.get("n") is None and gen_ok
+    if complete and name in OUTSIDE_QUANTIFIER:
+        complete = "observe"
+    meta["completeness_judged"] = bool(complete)
+    if complete:
+        stats["complete_runs"] += 1
+        problems = []
+        nexp = 0
+        for g, t in enumerate(sim["ubis"]):
             hits = [k for k, u in enumerate(ind.ubis) if same_lattice(u, t)]
-            if g == nmin_grain:
-                if len(hits) != 0:
-                    chk.violation("a grain with exactly minpks (= %d) peaks was reported: not MORE than the requested minimum" % p["minpks"],
-                                  dict(meta, true_ubi=t.tolist()))
-                continue
-            if len(hits) != 1:
-                chk.violation("ideal data: generating grain %d of %d (%s) reported %d times" % (g, ngrains, cellname, len(hits)),
-                              dict(meta, true_ubi=t.tolist(), reported=[u.tolist() for u in ind.ubis]))
-        if len(ind.ubis) != ngrains - (1 if boundary else 0):
-            chk.violation("ideal data: %d grains reported for %d generating grains (%s)" % (len(ind.ubis), ngrains, cellname), meta)
-    meta["noise_vs_tol"] = float(noise * max(uc.lattice_parameters[:3]) / p["hkl_tol"])
+            # above the minimum of some pass, counted on everything supplied (an accidental peak of another grain counts):
+            # a grain holding exactly minpks peaks is NOT above it; whether it may be reported all the same is the soundness
+            # clause's business (the reported matrix must index more than minpks)
+            above = any(L.count_range(L.hkl_err2(t, gv_supplied), ps["tol"])[0] > ps.get("_exact", ps["minpks"]) for ps in plan)
+            if above:
+                nexp += 1
+                stats["grains_expected"] += 1
+                if len(hits) != 1:
+                    problems.append(("ideal data: generating grain %d of %d (%s x%g, route %s) reported %d times" % (g, ng, name, scale, route, len(hits)), t))
+            elif len(hits) > 1:
+                problems.append(("ideal data: generating grain %d of %d (%s x%g, route %s) reported %d times" % (g, ng, name, scale, route, len(hits)), t))
+            elif g == nmin_grain:
+                stats["boundary_grains_not_above"] += 1
+        if len(ind.ubis) > len(sim["ubis"]) or len(ind.ubis) < nexp:
+            problems.append(("ideal data: %d grains reported for %d generating grains, %d of them above the minimum (%s x%g, route %s)" % (
+                len(ind.ubis), ng, nexp, name, scale, route), None))
+        for what, t in problems:
+            if complete == "observe":
+                chk.notes.setdefault("observations", []).append(what)
+            else:
+                chk.violation(what, dict(meta, true_ubi=None if t is None else t.tolist(), reported=[u.tolist() for u in ind.ubis]))
+    if noise == 0 and route != "do_index":
+        off = int(((ra < 0) & (owner >= 0)).sum())
+        if off:                                           # the ring list is C03's business: noted, not judged here
+            obs = chk.notes.setdefault("observations", [])
+            if len(obs) < 10:
+                obs.append("%d exact lattice points of %s x%g (%s) were not assigned to any ring (ds_tol %g)" % (off, name, scale, cen, ds_tol))
+    meta["noise_edge"] = float(noise * max(CELLS[name][0][:3]))
+    meta["noise_vs_tol"] = float(meta["noise_edge"] / tolmax)
     meta["reported"] = len(ind.ubis)
-    meta["events"] = len(ind._rec)
+    meta["events"] = len(ev)
+    meta["separated"] = separated
+    stats["runs_" + route] += 1
+    stats["scale_%g" % scale] += 1
+    stats["class_" + name] += 1
+    if not separated:
+        stats["rings_not_separated"] += 1
+    if p["cosine_tol"] < 0:
+        stats["allmode_runs"] += 1
+        stats["allmode_hits"] += sum(len(e["hits"]) for e in ev if e["t"] == "find")
+    for e in ev:
+        if e["t"] == "sap":
+            stats["pair_loops"] += 1
+            if e["n"] >= 0:
+                stats["pair_loops_with_n"] += 1
+    for e, a in zip(ev, aux):
+        if e["t"] == "sap" and a and (a.get("rings_to_use") is not None or a.get("rmulmax") is not None):
+            stats["pair_loops_restricted"] += 1
     return rec, meta
 
 
-def validate(chk, recs, tag):
-    path = os.path.join(common.scratch(), "trace_idx_%s.ndjson" % tag)
-    with open(path, "w") as f:
-        for r in recs:
-            f.write(json.dumps(r) + "\n")
+def validate(chk, recs, tag, nsplit=1):
+    """TraceIndexer over the recorded runs (nsplit JVMs side by side, one worker each: the traces are independent)"""
+    if nsplit > 1 and len(recs) > nsplit:
+        order = sorted(range(len(recs)), key=lambda i: -len(recs[i]["ev"]))
+        parts = [[recs[i] for i in order[k::nsplit]] for k in range(nsplit)]
+    else:
+        parts = [recs]
     cfg = common.write_cfg(os.path.join(common.scratch(), "traceidx.cfg"))
-    res = common.run_tlc("TraceIndexer", cfg, workers=1, timeout=3000, env_extra={"TRACE_FILE": path}, heap="10g")
-    chk.add_tlc("TraceIndexer %s (%d traces)" % (tag, len(recs)), res)
+
+    def one(k):
+        path = os.path.join(common.scratch(), "trace_idx_%s_%d.ndjson" % (tag, k))
+        with open(path, "w") as f:
+            for r in parts[k]:
+                f.write(json.dumps(r) + "\n")
+        return common.run_tlc("TraceIndexer", cfg, workers=1, timeout=3000, env_extra={"TRACE_FILE": path}, heap="6g")
+    with ThreadPoolExecutor(len(parts)) as ex:
+        results = list(ex.map(one, range(len(parts))))
     verdicts = {}
-    for line in res.printed:
-        v = json.loads(line)
-        verdicts[v["id"]] = v
+    for k, res in enumerate(results):
+        chk.add_tlc("TraceIndexer %s/%d (%d traces)" % (tag, k, len(parts[k])), res)
+        for line in res.printed:
+            v = json.loads(line)
+            verdicts[v["id"]] = v
     if len(verdicts) != len(recs):
-        raise common.MachineryError("TraceIndexer: %d verdicts for %d traces\n%s" % (len(verdicts), len(recs), res.stdout[-2000:]))
+        raise common.MachineryError("TraceIndexer: %d verdicts for %d traces\n%s" % (len(verdicts), len(recs), results[0].stdout[-2000:]))
     return verdicts
+
+
+# ------------------------------------------------------------------------------------------------ plans
+def make_plan(tier, rng):
+    plan = []
+
+    def sc():
+        return SCALES[int(rng.integers(0, len(SCALES)))]
+    if tier == "quick":
+        # the three core families of every named lattice, each at a random length scale
+        for nm in BASE:
+            plan.append(dict(cell=nm, ng=1, scale=sc()))
+            plan.append(dict(cell=nm, ng=int(rng.integers(2, 5)), scale=sc()))
+            plan.append(dict(cell=nm, ng=int(rng.integers(2, 4)), noise=[0.002, 0.004][int(rng.integers(0, 2))], nspur=int(rng.integers(0, 60)),
+                             scale=sc()))
+        plan += [dict(cell="cubicF", ng=6), dict(cell="monoclinic", ng=2, nspur=25)]
+        # further lattice classes
+        for nm in MORE:
+            plan.append(dict(cell=nm, ng=int(rng.integers(2, 4)), scale=sc()))
+        # a second pair loop on the same indexer, minpks boundary
+        plan += [dict(cell="cubicF", ng=3, repeat=2), dict(cell="hexagonal", ng=2, repeat=2, scale=10.0),
+                 dict(cell="orthorhombic", ng=2, noise=0.002, nspur=20, repeat=2),
+                 dict(cell="cubicI", ng=4, boundary=True, scale=250.0), dict(cell="tetragonal", ng=3, boundary=True),
+                 dict(cell="hexagonal", ng=3, boundary=True, repeat=2, scale=0.25)]
+        # strict then loose, as index() runs it: poorer grains / noisier data only pass the second setting
+        plan += [dict(cell="cubicF", ng=4, dropout=True, pass_fracs=[(0.93, 0.01), (0.5, 0.03)], scale=sc()),
+                 dict(cell="tetragonal", ng=3, dropout=True, pass_fracs=[(0.975, 0.02), (0.6, 0.02)]),
+                 dict(cell="orthorhombic", ng=3, noise=0.002, nspur=30, pass_fracs=[(0.7, 0.015), (0.4, 0.05), (0.3, 0.08)], scale=sc())]
+        # the command routes
+        plan += [dict(cell="cubicF", ng=3, dropout=True, route="index", pass_fracs=[(0.93, 0.01), (0.5, 0.02)], sap=dict(rmulmax=10),
+                      pars=dict(cosine_tol=float(np.cos(np.radians(90 - 0.1)))), complete=True),
+                 dict(cell="hexagonal", ng=2, noise=0.002, nspur=30, route="index", pass_fracs=[(0.6, 0.02), (0.4, 0.05)], scale=10.0,
+                      sap=dict(rmulmax=12, n=40), wavelength=0.15),
+                 dict(cell="cubicI", ng=3, dropout=True, route="do_index", do_index=dict(hkl_tols=(0.01, 0.03), fracs=(0.97, 0.6), forgen=(0, 1, 2), foridx=None),
+                      pars=dict(cosine_tol=float(np.cos(np.radians(90 - 0.25))), max_grains=1000), complete=True, scale=sc()),
+                 dict(cell="tetragonal", ng=2, noise=0.002, nspur=40, route="do_index", wavelength=0.7,
+                      do_index=dict(hkl_tols=(0.02, 0.05), fracs=(0.8, 0.5), forgen=(0, 1, 3), foridx=(0, 1, 2, 3, 4, 5, 6, 7)),
+                      pars=dict(cosine_tol=0.005, max_grains=1000)),
+                 dict(cell="monoclinic", ng=2, route="api", scale=250.0, wavelength=0.15)]
+        # score_all_pairs(n, rmulmax, rings_to_use)
+        plan += [dict(cell="cubicF", ng=3, sap=dict(rings_to_use=[0, 1]), complete=True, scale=sc()),
+                 dict(cell="cubicP", ng=3, sap=dict(rmulmax=8), complete=True),
+                 # max_grains = 1: every pair with hits yields one grain, so several pairs are scored and the cut by n shows
+                 dict(cell="hexagonal", ng=4, sap=dict(n=2), pars=dict(max_grains=1)),
+                 dict(cell="cubicI", ng=3, sap=dict(n=0), pars=dict(max_grains=1), scale=10.0),
+                 dict(cell="orthorhombic", ng=2, noise=0.002, nspur=20, sap=dict(n=5, rmulmax=4, rings_to_use=[0, 1, 2, 3, 5, 8])),
+                 dict(cell="tetragonal", ng=2, sap=dict(rings_to_use=[2, 0, 40]), complete=True)]
+        # cosine_tol < 0: every candidate pair
+        plan += [dict(cell="cubicP", ng=2, pars=dict(cosine_tol=-0.002), dscut=0.8),
+                 dict(cell="monoclinic", ng=2, pars=dict(cosine_tol=-0.002), scale=0.25),
+                 dict(cell="hexagonal", ng=2, noise=0.002, nspur=10, pars=dict(cosine_tol=-0.005), dscut=0.8, scale=250.0)]
+        # tolerance grid
+        plan += [dict(cell="cubicF", ng=3, pars=dict(hkl_tol=0.01, cosine_tol=0.0005)),
+                 dict(cell="tetragonal", ng=3, pars=dict(hkl_tol=0.1, cosine_tol=0.02), sep_tol=0.1, scale=sc()),
+                 dict(cell="hexagonal", ng=3, pars=dict(uniqueness=0.1), scale=sc()),
+                 dict(cell="orthorhombic", ng=3, pars=dict(uniqueness=0.9), scale=sc()),
+                 dict(cell="cubicI", ng=3, scale=10.0, pars=dict(ds_tol=0.004), complete=False),   # ds_tol NOT scaled: rings merge
+                 dict(cell="rhombohedral", ng=2, scale=0.25, pars=dict(ds_tol=0.004)),      # ds_tol NOT scaled: tighter
+                 dict(cell="monoclinic", ng=3, dropout=True, minpks_below_poorest=True),
+                 dict(cell="cubicP", ng=3, noise=0.004, nspur=40, pars=dict(hkl_tol=0.1, uniqueness=0.1, max_grains=100)),
+                 dict(cell="orthorhombic", ng=2, noise=0.001, nspur=40, pars=dict(hkl_tol=0.02, uniqueness=0.9, cosine_tol=0.003), scale=250.0)]
+    else:
+        for nm in BASE:
+            for ng in (1, 2, 3, 5, 8):
+                plan.append(dict(cell=nm, ng=ng, scale=sc()))
+            for s in SCALES:
+                plan.append(dict(cell=nm, ng=3, scale=s))
+        for nm in MORE:
+            for s in SCALES:
+                plan.append(dict(cell=nm, ng=int(rng.integers(1, 5)), scale=s))
+        for nm in MORE:
+            plan += [dict(cell=nm, ng=3, noise=0.002, nspur=40, scale=sc()), dict(cell=nm, ng=4, boundary=True, scale=sc()),
+                     dict(cell=nm, ng=4, dropout=True, pass_fracs=[(0.93, 0.01), (0.5, 0.03)], scale=sc()),
+                     dict(cell=nm, ng=3, dropout=True, route="index", pass_fracs=[(0.93, 0.01), (0.5, 0.02)], scale=sc()),
+                     dict(cell=nm, ng=3, dropout=True, route="do_index", do_index=dict(hkl_tols=(0.01, 0.03), fracs=(0.97, 0.6), forgen=(0, 1, 2, 3),
+                          foridx=None), pars=dict(max_grains=1000), scale=sc()),
+                     dict(cell=nm, ng=2, pars=dict(cosine_tol=-0.002), dscut=0.8, scale=sc()),
+                     dict(cell=nm, ng=3, pars=dict(hkl_tol=0.01, cosine_tol=0.0005), scale=sc()),
+                     dict(cell=nm, ng=3, pars=dict(uniqueness=0.9), scale=sc())]
+        for nm in BASE:
+            plan += [dict(cell=nm, ng=3, noise=0.002, nspur=40, scale=sc()), dict(cell=nm, ng=2, noise=0.004, nspur=100, scale=sc()),
+                     dict(cell=nm, ng=4, nspur=60, scale=sc()),
+                     dict(cell=nm, ng=3, repeat=2, scale=sc()), dict(cell=nm, ng=2, noise=0.002, nspur=30, repeat=2),
+                     dict(cell=nm, ng=4, boundary=True, scale=sc()), dict(cell=nm, ng=3, boundary=True, repeat=2),
+                     dict(cell=nm, ng=4, dropout=True, pass_fracs=[(0.93, 0.01), (0.5, 0.03)], scale=sc()),
+                     dict(cell=nm, ng=3, noise=0.002, nspur=30, pass_fracs=[(0.7, 0.015), (0.4, 0.05), (0.3, 0.08)], scale=sc()),
+                     dict(cell=nm, ng=3, dropout=True, route="index", pass_fracs=[(0.93, 0.01), (0.5, 0.02)], scale=sc()),
+                     dict(cell=nm, ng=2, noise=0.002, nspur=30, route="index", pass_fracs=[(0.6, 0.02), (0.4, 0.05)], sap=dict(rmulmax=12),
+                          wavelength=[0.15, 0.3, 0.7][int(rng.integers(0, 3))]),
+                     dict(cell=nm, ng=3, dropout=True, route="do_index", do_index=dict(hkl_tols=(0.01, 0.03), fracs=(0.97, 0.6), forgen=(0, 1, 2, 3), foridx=None),
+                          pars=dict(max_grains=1000), scale=sc()),
+                     dict(cell=nm, ng=2, noise=0.002, nspur=40, route="do_index", do_index=dict(hkl_tols=(0.02, 0.05), fracs=(0.8, 0.5),
+                          forgen=(0, 1, 3), foridx=(0, 1, 2, 3, 4, 5, 6, 7)), pars=dict(cosine_tol=0.005, max_grains=1000)),
+                     dict(cell=nm, ng=2, route="api", scale=sc()),
+                     dict(cell=nm, ng=3, sap=dict(rings_to_use=[0, 1, 2])), dict(cell=nm, ng=3, sap=dict(rmulmax=8)),
+                     dict(cell=nm, ng=4, sap=dict(n=int(rng.integers(0, 4))), pars=dict(max_grains=1)),
+                     dict(cell=nm, ng=2, pars=dict(cosine_tol=-0.002), dscut=0.8, scale=sc()),
+                     dict(cell=nm, ng=2, noise=0.002, nspur=10, pars=dict(cosine_tol=-0.005), dscut=0.8),
+                     dict(cell=nm, ng=3, pars=dict(hkl_tol=0.01, cosine_tol=0.0005), scale=sc()),
+                     dict(cell=nm, ng=3, pars=dict(hkl_tol=0.1, cosine_tol=0.02), sep_tol=0.1),
+                     dict(cell=nm, ng=3, pars=dict(uniqueness=0.1)), dict(cell=nm, ng=3, pars=dict(uniqueness=0.9)),
+                     dict(cell=nm, ng=3, pars=dict(uniqueness=0.2, hkl_tol=0.03), noise=0.002, nspur=20),
+                     dict(cell=nm, ng=3, scale=10.0, pars=dict(ds_tol=0.004), complete=False),
+                     dict(cell=nm, ng=3, dropout=True, minpks_below_poorest=True)]
+    return plan
 
 
 def run(tier, replay=None):
     chk = common.Check(PROP, tier)
     shadow = common.build_shadow("normal")
     common.use_shadow(shadow)
-    from ImageD11 import indexing, unitcell as unitcell_mod
+    from ImageD11 import indexing, unitcell as unitcell_mod, columnfile, parameters
     logging.disable(logging.CRITICAL)
     RecIndexer = make_recorder(indexing)
+    from collections import Counter
+    stats = Counter()
+    stats["cell_ratio_max"] = 0.0
+    stats["cell_dist_max"] = 0.0
+    ctx = {"indexing": indexing, "unitcell": unitcell_mod, "columnfile": columnfile, "parameters": parameters, "RecIndexer": RecIndexer,
+           "Base": indexing.indexer, "stats": stats}
     chk.rule = ("Indexer.tla explored exhaustively on the ideal and the noisy abstract instance (all hit orders, all ring-pair "
-                "orders); real runs: noise-free simulated grains (1..8) of 8 lattices through score_all_pairs (completeness + "
-                "soundness) and noisy / spurious-peak runs with varying tolerances, minpks, uniqueness, max_grains (soundness); "
-                "every run recorded and validated event by event by TraceIndexer; non-trivial = at least one grain accepted; "
-                "distinct = distinct (lattice, grains, noise, parameters, seed)")
-    chk.assumptions = ["well separated grains: generated orientations sharing > 20% of reflections within 0.05 hkl are redrawn",
-                       "'cell within what the tolerance allows' is judged as cell volume within 10% (any lattice-equivalent setting accepted)",
-                       "same lattice = UBI_a UBI_b^-1 within 0.05 of an integer unimodular matrix"]
+                "orders; closest-angle and all-candidates hit lists, strict-then-loose passes, rings_to_use, n); real runs: own "
+                "forward model (own B, brute-force hkls) at cell scales 0.25 / 1 / 10 / 250: noise-free grains (1..8) of 17 "
+                "lattices through score_all_pairs (plain, repeated, with n / rmulmax / rings_to_use, cosine_tol < 0, strict-then-"
+                "loose settings), index(), do_index(), indexer_from_colfile (completeness + soundness) and noisy / spurious-peak "
+                "runs over a grid of tolerances, minpks, uniqueness, max_grains (soundness); every run recorded and validated "
+                "event by event by TraceIndexer, every logged score / getind mask / hit list recomputed by the harness; "
+                "non-trivial = at least one grain accepted; distinct = distinct (lattice, scale, route, grains, noise, "
+                "parameters, seed)")
+    chk.assumptions = ["well separated grains: generated orientations sharing more than min(20%, (1 - uniqueness) / 2) of their "
+                       "reflections within 0.05 hkl (0.1 for the hkl_tol 0.1 runs) are redrawn",
+                       "'the supplied cell's parameters to within what the tolerance allows': a trial orientation has the cell "
+                       "exactly (1e-8); the reported one may differ by ONE least-squares step on the ring peaks within hkl_tol: "
+                       "metric distortion <= (1 + t)^2 - 1, t = c e / (1 - c e), e = 1.05 hkl_tol sqrt(N / lambda_min(sum h h^T)), "
+                       "c = condition number of the cell's Cartesian matrix",
+                       "same lattice = UBI_a UBI_b^-1 within 0.05 of an integer unimodular matrix",
+                       "completeness is asserted when the pair loop is not cut by n, no spurious peaks are present and ds_tol was "
+                       "scaled with the cell (the runs that keep ds_tol = 0.004 on a 10x cell merge rings: soundness only); with "
+                       "rings_to_use / rmulmax / forgen only when the permitted rings' own hkl families hold two non-collinear "
+                       "reflections (every grain then owns a pair that fixes an orientation); triclinic (outside the quantifier's "
+                       "list) is judged for soundness, its completeness is an observation",
+                       "ring numbers and ring d* come from the indexer's unitcell (C03); the hkl families, multiplicities and "
+                       "allowed angles of those rings are the harness's own; hit lists are judged on ring pairs whose rings are "
+                       "clean (no other distinct own d* within 1.01 ds_tol)",
+                       "do_index: the requested minimum is frac * sum over foridx rings holding peaks of int(multiplicity * "
+                       "omega_range / 180) with the harness's own multiplicities"]
     if replay:
         case = json.load(open(replay))["case"]
         os.environ["VERIF_SEED"] = str(case.get("seed", 0))
         chk.notes["replayed"] = replay
     # ---- the specification itself
-    cfgs = ["Indexer_q", "Indexer_noisy"] if tier == "quick" else ["Indexer_t", "Indexer_noisy_t"]
-    for c in cfgs:
-        res = common.run_tlc("Indexer", os.path.join(common.SPECS, c + ".cfg"), workers=16, timeout=1800, coverage=True)
-        need = ("Find", "PopHit", "PopSkip", "PopLow", "PopAccept", "EndScore") + (("PopReject",) if "noisy" in c else ())
+    if tier == "quick":
+        cfgs = ["Indexer_q", "Indexer_all", "Indexer_2p", "Indexer_r1", "Indexer_cap", "Indexer_noisy"]
+    else:
+        cfgs = ["Indexer_q", "Indexer_all", "Indexer_2p", "Indexer_r1", "Indexer_cap", "Indexer_noisy", "Indexer_t", "Indexer_noisy_t"]
+    need_of = {"Indexer_r1": ("Find", "PopHit", "PopSkip", "PopAccept", "EndScore"),
+               "Indexer_2p": ("Find", "PopHit", "PopSkip", "PopLow", "PopAccept", "EndScore", "NextPass"),
+               "Indexer_t": ("Find", "PopHit", "PopSkip", "PopLow", "PopAccept", "EndScore", "NextPass"),
+               "Indexer_noisy_t": ("Find", "PopHit", "PopSkip", "PopLow", "PopAccept", "PopReject", "EndScore", "NextPass")}
+
+    def tlc(c):
+        return common.run_tlc("Indexer", os.path.join(common.SPECS, c + ".cfg"), workers=4, timeout=1800, coverage=True)
+    with ThreadPoolExecutor(3) as ex:
+        results = list(ex.map(tlc, cfgs))
+    for c, res in zip(cfgs, results):
+        need = need_of.get(c, ("Find", "PopHit", "PopSkip", "PopLow", "PopAccept", "EndScore") + (("PopReject",) if "noisy" in c else ()))
         chk.add_tlc(c, res, require_cover=need)
         if res.violated:
             raise common.MachineryError("Indexer model violates %s" % res.violated)
     # ---- recorded real runs
     rng = np.random.default_rng(common.seed() + 8)
-    names = list(CELLS)
+    plan = make_plan(tier, rng)
     recs, metas = [], {}
-    plan = []
-    if tier == "quick":
-        for nm in names:
-            plan.append((nm, 1, 0.0, 0))
-            plan.append((nm, int(rng.integers(2, 5)), 0.0, 0))
-            plan.append((nm, int(rng.integers(2, 4)), [0.002, 0.004][int(rng.integers(0, 2))], int(rng.integers(0, 60))))
-        plan += [("cubicF", 6, 0.0, 0), ("monoclinic", 2, 0.0, 25)]
-        plan += [("cubicF", 3, 0.0, 0, 2, False), ("hexagonal", 2, 0.0, 0, 2, False), ("orthorhombic", 2, 0.002, 20, 2, False),
-                 ("cubicI", 4, 0.0, 0, 1, True), ("tetragonal", 3, 0.0, 0, 1, True), ("hexagonal", 3, 0.0, 0, 2, True)]
-    else:
-        for nm in names:
-            for ng in (1, 2, 3, 5, 8):
-                plan.append((nm, ng, 0.0, 0))
-        for nm in names:
-            plan += [(nm, 3, 0.002, 40), (nm, 2, 0.004, 100), (nm, 4, 0.0, 60)]
-            plan += [(nm, 3, 0.0, 0, 2, False), (nm, 2, 0.002, 30, 2, False), (nm, 4, 0.0, 0, 1, True), (nm, 3, 0.0, 0, 2, True)]
-    for k, pl in enumerate(plan):
-        nm, ng, noise, nsp = pl[:4]
-        passes, boundary = (pl[4], pl[5]) if len(pl) > 4 else (1, False)
+    t_runs = time.time()
+    for k, sp in enumerate(plan):
         cid = "i%d" % k
-        pars = None
-        if tier == "thorough" and k % 5 == 4:
-            pars = {"uniqueness": 0.2, "hkl_tol": 0.03}
-        rec, meta = run_case(chk, indexing, unitcell_mod, RecIndexer, rng, nm, ng, noise, nsp, cid, tier, pars, passes=passes, boundary=boundary)
+        rec, meta = run_case(chk, ctx, rng, sp, cid)
         metas[cid] = meta
         if rec is not None:
             recs.append(rec)
-            chk.case((nm, ng, noise, nsp, k, passes, boundary), nontrivial=meta.get("reported", 0) > 0)
-    verdicts = validate(chk, recs, "runs")
+            chk.case((json.dumps(sp, sort_keys=True, default=str), k), nontrivial=meta.get("reported", 0) > 0)
+    t_runs = time.time() - t_runs
+    t_tlc = time.time()
+    verdicts = validate(chk, recs, "runs", nsplit=3 if tier == "quick" else 6)
+    chk.notes["time_s"] = {"real_runs_and_own_judgement": round(t_runs, 1), "trace_validation": round(time.time() - t_tlc, 1)}
     for r in recs:
         v = verdicts[r["id"]]
         chk.traces += 1
         if not v["ok"]:
-            ev = r["ev"][v["consumed"]] if v["consumed"] < len(r["ev"]) else None
-            chk.violation("trace rejected by TraceIndexer: %s (event %d: %s)" % (v["why"], v["consumed"], json.dumps(ev)[:300]), metas[r["id"]])
+            ev = r["ev"][v["consumed"] - 1] if 0 < v["consumed"] <= len(r["ev"]) else None      # the event that failed
+            m = metas[r["id"]]
+            chk.violation("trace rejected by TraceIndexer: %s (event %d: %s) [%s x%g, route %s]" % (
+                v["why"], v["consumed"] - 1, json.dumps(ev)[:300], m["cell"], m["scale"], m["route"]), m)
     for cid, m in metas.items():
-        for (a, b, pair) in m.pop("_dups", []):
-            what = "reported orientations %d and %d describe the same lattice (%s, noise*edge/hkl_tol = %.2f)" % (
-                a, b, m["cell"], m["noise_vs_tol"])
-            explained = (m["noise"] > 0 and m["noise_vs_tol"] >= 0.5 and cid in verdicts and verdicts[cid]["ok"])
+        for (a, b, pair, tl) in m.pop("_dups", []):
+            nvt = m["noise_edge"] / tl
+            what = "reported orientations %d and %d describe the same lattice (%s, noise*edge/hkl_tol = %.2f)" % (a, b, m["cell"], nvt)
+            explained = (m["noise"] > 0 and nvt >= 0.5 and cid in verdicts and verdicts[cid]["ok"])
             if explained and chk.finding(DUP_ID):
                 chk.known_finding(DUP_ID, "with noise comparable to hkl_tol the first orientation of a grain indexes only part of "
                                           "its peaks and a second, near-identical orientation passes the uniqueness test")
             else:
                 chk.violation(what, dict(m, ubis=pair))
-    chk.sample({k: metas["i0"][k] for k in ("cell", "ngrains", "noise", "pars", "reported", "events")} if "i0" in metas and "events" in metas["i0"] else metas.get("i0"))
+    keys = ("cell", "scale", "route", "ngrains", "noise", "pars", "plan", "reported", "events")
+    chk.sample({k: metas["i0"][k] for k in keys} if "i0" in metas and "events" in metas["i0"] else metas.get("i0"))
+    last = metas.get("i%d" % (len(plan) - 1), {})
+    if "events" in last:
+        chk.sample({k: last[k] for k in keys})
     chk.notes["events_validated"] = sum(len(r["ev"]) for r in recs)
     chk.notes["accepted_grains"] = sum(m.get("reported", 0) for m in metas.values())
+    chk.notes["families"] = {k: (round(v, 6) if isinstance(v, float) else int(v)) for k, v in sorted(stats.items())}
+    # vacuity: every new family must have been exercised
+    for key in ("runs_sap", "runs_index", "runs_do_index", "runs_api", "find_judged", "scores_judged", "getind_judged", "cell_bound_finite",
+                "reorient_branch", "accepted_in_later_pass", "allmode_runs", "pair_loops_with_n", "pair_loops_restricted", "complete_runs",
+                "scale_0.25", "scale_1", "scale_10", "scale_250"):
+        if not stats[key] and not chk.violations:
+            raise common.MachineryError("vacuity: family %s was never exercised" % key)
     chk.exhaustive = False
     selftest(chk, recs)
     return chk.finish()
 
 
 def selftest(chk=None, recs=None):
-    """a corrupted decision / assignment in a recorded trace must be rejected"""
+    """a corrupted decision / assignment / score / pair loop in a recorded trace must be rejected; the harness's own
+    arithmetic must reject a distorted cell and a wrong count"""
+    c = (4.0, 5.0, 6.0, 90.0, 100.0, 90.0)
+    u = np.linalg.inv(random_rotation(np.random.default_rng(1)) @ L.recip_B(c))
+    if L.cell_distortion(u, c) > 1e-12 or L.cell_distortion(np.diag([1.0, 1.0, 1.01]) @ u, c) < 0.015:
+        raise common.MachineryError("selftest: cell_distortion")
+    hk, _ = L.brute_hkls(c, "P", 0.6)
+    g = hk @ np.linalg.inv(u).T
+    if L.count_range(L.hkl_err2(u, g), 0.01) != (len(hk), len(hk)) or L.count_range(L.hkl_err2(u, g + 0.02 * np.linalg.inv(u)[:, 0]), 0.01)[1] != 0:
+        raise common.MachineryError("selftest: hkl error count")
     if not recs:
         return
-    base = next((r for r in recs if any(e["t"] == "pop" and e["kind"] == "accept" for e in r["ev"])), None)
+    base = next((r for r in recs if any(e["t"] == "pop" and e["kind"] == "accept" for e in r["ev"])
+                 and any(e["t"] == "sap" and e["n"] < 0 and len(e["pairs"]) > 1 for e in r["ev"])), None)
     if base is None:
         raise common.MachineryError("selftest: no trace with an accepted grain")
-    bad1 = json.loads(json.dumps(base))
-    bad1["id"] = "bad1"
+
+    def clone(tag):
+        b = json.loads(json.dumps(base))
+        b["id"] = tag
+        return b
+    bad1 = clone("bad1")
     e = next(e for e in bad1["ev"] if e["t"] == "pop" and e["kind"] == "accept")
-    e["npk"] = bad1["minpks"]                      # an accepted grain whose score is not > minpks
-    bad2 = json.loads(json.dumps(base))
-    bad2["id"] = "bad2"
+    e["npk"] = bad1["passes"][0]["minpks"]         # an accepted grain whose score is not > minpks
+    e["sc"][0] = e["npk"]
+    bad2 = clone("bad2")
     p = next(i for i, g in enumerate(bad2["gaF"]) if g > 0)
     bad2["gaF"][p] = -1                            # final assignment lost one peak
+    bad3 = clone("bad3")
+    bad3["scoresF"][0] += 1                        # stored score is not the one taken
+    bad4 = clone("bad4")
+    e = next(e for e in bad4["ev"] if e["t"] == "sap")
+    e["pairs"] = e["pairs"] + [[98, 99]]           # a permitted ring pair that was never tried
+    bad5 = clone("bad5")
+    e = next(e for e in bad5["ev"] if e["t"] == "sap")
+    e["pairs"] = e["pairs"][1:]                    # a pair outside the permitted ones was tried
     tmp = common.Check(PROP, "quick")
-    v = validate(tmp, [base, bad1, bad2], "selftest")
+    v = validate(tmp, [base, bad1, bad2, bad3, bad4, bad5], "selftest")
     if chk is not None:
         chk.states += tmp.states
         chk.transitions += tmp.transitions
         chk.tlc_runs += tmp.tlc_runs
-    if not v[base["id"]]["ok"] or v["bad1"]["ok"] or v["bad2"]["ok"]:
+    if not v[base["id"]]["ok"] or any(v[b]["ok"] for b in ("bad1", "bad2", "bad3", "bad4", "bad5")):
         raise common.MachineryError("selftest: TraceIndexer verdicts wrong: %s" % v)
